@@ -50,6 +50,7 @@ def must_see(tier):
         m[impl + ':height>=3'] = 5
         m[impl + ':detected:inplace'] = 50
         m[impl + ':detected:inplace-empty'] = 10
+        m[impl + ':detected:inplace-interior-empty'] = 10
     return m
 
 
@@ -448,6 +449,52 @@ def run_tree(fam, kind, impl, rng, rec, ti):
             continue
         rec.ev('%s:detected:inplace-%s' % (impl, how))
         rec.ev(impl + ':detected:inplace')
+    # (d) an INTERIOR node of a live tree emptied in place
+    # (node.__setstate__(None)): first, middle or last child of its parent
+    for _ in range(3):
+        try:
+            ct = surgeon.build(d, fam, kind, impl)
+        except Exception:
+            break
+        wk = walker.walk(ct, is_mapping, check_sizes=False)
+        inner = [o for o in wk.interior_objs if o is not None and o is not ct]
+        wk.release()
+        if not inner:
+            break
+        i = rng.choice([0, len(inner) - 1, rng.randrange(len(inner))])
+        node = inner[i]
+        ninner = len(inner)
+        del inner
+        try:
+            node.__setstate__(None)
+        except Exception:
+            rec.ev('corruption-not-loadable:inplace-interior-empty')
+            continue
+        del node
+        try:
+            wk = walker.walk(ct, is_mapping, check_sizes=False)
+            broken = breaks_property(wk)
+            wk.release()
+        except Exception as e:
+            broken = 'walker raised %s' % type(e).__name__
+        rec.evaluations += 1
+        if not broken:
+            rec.ev('benign:inplace-interior-empty')
+            continue
+        det, other = run_checkers(ct)
+        rec.seen(impl, kind, 'inplace-interior-empty', 'interior',
+                 'first' if i == 0 else 'last' if i == ninner - 1 else
+                 'middle', 'both' if len(det) == 2 else (
+                     sorted(det)[0] if det else 'none'))
+        if not det:
+            rec.violation('corruption-not-detected',
+                          corruption='inplace-interior-empty',
+                          level='interior', position=i,
+                          walker=brief(broken, 200), other=other,
+                          leaves=brief(w.leaf_keys, 300),
+                          shape=brief(w.shape, 200), **desc0)
+            continue
+        rec.ev(impl + ':detected:inplace-interior-empty')
     if ti == 0 and kind == 'BTree':
         rec.sample(dict(desc0, leaves=brief(w.leaf_keys, 200),
                         shape=brief(w.shape, 100)))
